@@ -1,5 +1,6 @@
 """C19 -- what is drawn is the object (DR1, DR2, DR3, U1)."""
 from ..rules import draw_rules as D
+from ..rules import sibling_rules as SI
 from ..rules.common import u1
 
 DR = D.DRAW
@@ -30,6 +31,7 @@ def run(ctx):
     ctx.do(D.rule_dr2)
     ctx.do(D.rule_dr3)
     ctx.do(D.rule_dr4)
+    ctx.do(SI.rule_k4)
     ctx.do(u1, ENTRIES, min_functions=30)
     ctx.r.assume("that the path visits the vertices along geodesics (arc "
                  "reversal heuristic, radius threshold) needs values and is "
